@@ -398,6 +398,7 @@ theorem okAt_child {ld} {p q : Pos} {seg : Seg} (hp : OkAt ld p) (hc : child p s
     | str s => simp [child] at hc
     | flt r => simp [child] at hc
     | list xs => simp [child] at hc
+  | optGroup req ogfs => simp [child] at hc
   | listOf req it =>
     cases val with
     | list xs =>
@@ -482,6 +483,7 @@ theorem child_pos_getPath {p q : Pos} {seg : Seg} (hc : child p seg = .pos q) (r
     | str s => simp [child] at hc
     | flt r => simp [child] at hc
     | list xs => simp [child] at hc
+  | optGroup req ogfs => simp [child] at hc
   | listOf req it =>
     cases val with
     | list xs =>
@@ -590,6 +592,7 @@ theorem okAt_child_undefined {ld} {p : Pos} {seg : Seg} {r : Path} {w : Val}
     | str s => simp [child] at hc
     | flt r => simp [child] at hc
     | list xs => simp [child] at hc
+  | optGroup req ogfs => simp [child] at hc
   | listOf req it =>
     cases val with
     | list xs =>
@@ -658,6 +661,7 @@ theorem subOf_mem : ∀ {fs : Fields} {d : String} {rq : Bool} {cs : Choices},
     | group w gfs => simp only [subOf] at h; exact List.mem_cons_of_mem _ (subOf_mem h)
     | classArg req imp cls => simp only [subOf] at h; exact List.mem_cons_of_mem _ (subOf_mem h)
     | listOf req it => simp only [subOf] at h; exact List.mem_cons_of_mem _ (subOf_mem h)
+    | optGroup req ogfs => simp only [subOf] at h; exact List.mem_cons_of_mem _ (subOf_mem h)
 
 theorem reqChoices_ok {pre cut kvs dest req c} : ∀ {cs : Choices} {cfs : Fields},
     reqChoices pre cut kvs dest req c cs = .ok () → assoc c cs = some cfs →
@@ -720,6 +724,7 @@ theorem reqFields_levelIn {cut} : ∀ (ks : List String) {pre : Path} {fs : Fiel
       | leaf ty req d => simp [hs] at hl
       | classArg req imp cls => simp [hs] at hl
       | listOf req it => simp [hs] at hl
+      | optGroup req ogfs => simp [hs] at hl
       | subcommands rq cs => simp [hs] at hl
     | sect cfs =>
       simp only [hs] at hl
@@ -846,6 +851,7 @@ theorem levelIn_getPath : ∀ (ks : List String) {fs : Fields} {kvs : KV} {fs2 :
       | leaf ty req d => simp [hs] at hl
       | classArg req imp cls => simp [hs] at hl
       | listOf req it => simp [hs] at hl
+      | optGroup req ogfs => simp [hs] at hl
       | subcommands rq cs => simp [hs] at hl
     | sect cfs =>
       simp only [hs] at hl
@@ -870,24 +876,28 @@ theorem isNullOrMissing_false {o : Option Val} (h : isNullOrMissing o = false) :
 def reqLeafLike (pre : Path) (cut : Nat) (kvs : KV) (name : String) (req : Bool) : R :=
   if req && isNullOrMissing (assoc name kvs) then .error (.required (pre ++ [.key name]) cut) else .ok ()
 
-theorem reqNode_required {pre cut kvs name} {n : Node} (hn : isRequiredNode n = true) :
-    reqNode pre cut kvs name n = reqLeafLike pre cut kvs name true := by
+theorem reqNode_required_err {pre cut kvs name} {n : Node} (hn : isRequiredNode n = true)
+    (hm : isNullOrMissing (assoc name kvs) = true) :
+    reqNode pre cut kvs name n = .error (.required (pre ++ [.key name]) cut) := by
   cases n with
-  | leaf ty req d => simp only [isRequiredNode] at hn; subst hn; rw [reqNode]; rfl
-  | classArg req imp cls => simp only [isRequiredNode] at hn; subst hn; rw [reqNode]; rfl
-  | listOf req it => simp only [isRequiredNode] at hn; subst hn; rw [reqNode]; rfl
+  | leaf ty req d => simp only [isRequiredNode] at hn; subst hn; rw [reqNode]; simp [hm]
+  | classArg req imp cls => simp only [isRequiredNode] at hn; subst hn; rw [reqNode]; simp [hm]
+  | listOf req it => simp only [isRequiredNode] at hn; subst hn; rw [reqNode]; simp [hm]
+  | optGroup req ogfs => simp only [isRequiredNode] at hn; subst hn; rw [reqNode]; simp [hm]
   | group w gfs => simp [isRequiredNode] at hn
   | subcommands rq cs => simp [isRequiredNode] at hn
+
+theorem reqNode_required_ok {pre cut kvs name} {n : Node} (hn : isRequiredNode n = true)
+    (h : reqNode pre cut kvs name n = .ok ()) : isNullOrMissing (assoc name kvs) = false := by
+  cases hm : isNullOrMissing (assoc name kvs) with
+  | false => rfl
+  | true => rw [reqNode_required_err hn hm] at h; cases h
 
 /-- an accepted level holds a non-null value for each of its required keys -/
 theorem reqFields_required {pre cut kvs fs r n} (hr : reqFields pre cut kvs fs = .ok ())
     (ha : assoc r fs = some n) (hn : isRequiredNode n = true) : ∃ v, assoc r kvs = some v ∧ v ≠ .null := by
   have := reqFields_ok_mem hr (assoc_mem ha)
-  rw [reqNode_required hn] at this
-  unfold reqLeafLike at this
-  by_cases h : isNullOrMissing (assoc r kvs) = true
-  · simp [h] at this
-  · exact isNullOrMissing_false (by simpa using h)
+  exact isNullOrMissing_false (reqNode_required_ok hn this)
 
 /-- walking down from an accepted position keeps to accepted positions and to the values of the configuration -/
 theorem okAt_reach {ld} : ∀ (path : Path) {p q : Pos}, OkAt ld p → reach p path = .pos q →
@@ -1213,6 +1223,7 @@ theorem subChoicesOk_mem {fs : Fields} : ∀ {l : Fields} {nm : String} {rq : Bo
       | group w g => simp only [subChoicesOk] at hok; exact subChoicesOk_mem hok h c f hcf
       | classArg req imp cls => simp only [subChoicesOk] at hok; exact subChoicesOk_mem hok h c f hcf
       | listOf req it => simp only [subChoicesOk] at hok; exact subChoicesOk_mem hok h c f hcf
+      | optGroup req ogfs => simp only [subChoicesOk] at hok; exact subChoicesOk_mem hok h c f hcf
 
 theorem noClash_choices {fs : Fields} (hn : noClash fs = true) {nm : String} {rq : Bool} {cs : Choices}
     (hm : (nm, Node.subcommands rq cs) ∈ fs) {c : String} {f : Fields} (hcf : (c, f) ∈ cs) : assoc c fs = none := by
@@ -1237,6 +1248,7 @@ theorem noClash_dest {fs : Fields} {d : String} {rq : Bool} {cs : Choices} (hn :
     | group w g => simp [h] at hn
     | classArg req imp cls => simp [h] at hn
     | listOf req it => simp [h] at hn
+    | optGroup req ogfs => simp [h] at hn
 
 /-- changing a container value under an argument key (not a section) does not change the selection -/
 theorem selected_replace_field {fs : Fields} {kvs : KV} {k : String} {n : Node} {v1 v1' : Val}
@@ -1597,6 +1609,7 @@ theorem modify_prop {ld} {f : Val → Option Val} :
         | str s => simp [child] at hc
         | flt r => simp [child] at hc
         | list xs => simp [child] at hc
+      | optGroup req ogfs => simp [child] at hc
       | listOf req it =>
         cases val with
         | list xs =>
@@ -1773,6 +1786,7 @@ theorem insert_reported {ld fs kvs path q z w v'}
     | list xs => simp at hfor
   | leaf ty req d => simp at hfor
   | listOf req it => simp at hfor
+  | optGroup req ogfs => simp at hfor
   | subcommands rq cs => simp at hfor
 
 theorem modifyAt_dict {f : Val → Option Val} {path : Path} {kvs : KV} {v' : Val}
@@ -1817,6 +1831,7 @@ theorem reqNode_congr {pre cut kvs kvs' nm} {nd : Node} (hA : assoc nm kvs' = as
   | leaf ty req d => rw [reqNode, reqNode, hA]
   | classArg req imp cls => rw [reqNode, reqNode, hA]
   | listOf req it => rw [reqNode, reqNode, hA]
+  | optGroup req ogfs => rw [reqNode, reqNode, hA]
   | group w g => rw [reqNode_group, reqNode_group, hA]
   | subcommands rq cs =>
     rw [reqNode_sub, reqNode_sub]
@@ -1880,6 +1895,7 @@ theorem subOf_split : ∀ {fs : Fields} {d : String} {rq : Bool} {cs : Choices},
     | group w gfs => simp only [subOf] at h; exact rec_case h rfl
     | classArg req imp cls => simp only [subOf] at h; exact rec_case h rfl
     | listOf req it => simp only [subOf] at h; exact rec_case h rfl
+    | optGroup req ogfs => simp only [subOf] at h; exact rec_case h rfl
 
 theorem slotOf_of_assoc {fs : Fields} {k : String} {n : Node} (h : assoc k fs = some n) : slotOf fs k = .field n := by
   unfold slotOf; simp [h]
@@ -1890,6 +1906,7 @@ theorem chkVal_null_required {ld pre cut} {n : Node} (hn : isRequiredNode n = tr
   | leaf ty req d => rw [chkVal]; simp [chkLeaf]
   | classArg req imp cls => rw [chkVal]; simp
   | listOf req it => rw [chkVal]; simp
+  | optGroup req ogfs => rw [chkVal]; simp
   | group w g => simp [isRequiredNode] at hn
   | subcommands rq cs => simp [isRequiredNode] at hn
 
@@ -1950,6 +1967,7 @@ theorem levelIn_modify_getPath {f : Val → Option Val} (hd : ∀ v v', f v = so
           | leaf ty req d => simp [hs] at hl
           | classArg req imp cls => simp [hs] at hl
           | listOf req it => simp [hs] at hl
+          | optGroup req ogfs => simp [hs] at hl
           | subcommands rq cs => simp [hs] at hl
         | sect cfs =>
           simp only [hs] at hl
@@ -2019,9 +2037,7 @@ theorem req_level {ld} {f : Val → Option Val} {r : String} {n : Node} (hE : En
           have hc := noClash_choices hst (hmem nm _ hmm) hcf
           have : c ≠ r := by intro e; rw [e, ha] at hc; cases hc
           exact hother c this
-      · rw [reqNode_required hreq]
-        unfold reqLeafLike
-        simp [hE.missing _ _ hm]
+      · exact reqNode_required_err hreq (hE.missing _ _ hm)
   | k :: rest, fs, kvs, fs2, kvs2, pre, cut, preR, cutR, kvs', hw, hr, hl, hst, ha, hreq, hgoodEnd, hm => by
     have hgp := levelIn_modify_getPath hE.onlyDict (k :: rest) hl hm
     simp only [List.map_cons, modifyAt] at hm
@@ -2103,6 +2119,7 @@ theorem req_level {ld} {f : Val → Option Val} {r : String} {n : Node} (hE : En
           | leaf ty req d => simp [hs] at hl
           | classArg req imp cls => simp [hs] at hl
           | listOf req it => simp [hs] at hl
+          | optGroup req ogfs => simp [hs] at hl
           | subcommands rq cs => simp [hs] at hl
         | sect cfs =>
           simp only [hs] at hl hstRest
